@@ -97,7 +97,17 @@ pub enum KAct {
     SqpollConsume,
     /// SQPOLL kernel thread goes idle (NEED_WAKEUP).
     SqpollIdle,
+    /// Inside `io_uring_enter` only: the call fails with the `errno`-th errno
+    /// of [`ENTER_ERRNOS`] instead of waiting (whatever the earlier actions of
+    /// the same call posted stays posted: task work runs on the way out of a
+    /// system call whatever it returns) (K18).
+    FailEnter { errno: u8 },
 }
+
+/// Errors `io_uring_enter(GETEVENTS)` can report from its wait
+/// (io_uring_enter(2): EBADR completions were dropped, EAGAIN/EBUSY/ENOMEM
+/// resource shortage).
+pub const ENTER_ERRNOS: &[i32] = &[libc::EBADR, libc::EAGAIN, libc::EBUSY, libc::ENOMEM];
 
 /// Which oracles are active.
 #[derive(Copy, Clone, Debug, Default)]
@@ -1022,6 +1032,13 @@ impl<'a> Exec<'a> {
                 }
             }
             KAct::SqpollConsume | KAct::SqpollIdle => {}
+            KAct::FailEnter { errno } => {
+                // Only meaningful inside io_uring_enter (ring_poll clears what
+                // is left of it before and after the call).
+                if ring.inline {
+                    sim::fail_next_enter(ENTER_ERRNOS[*errno as usize % ENTER_ERRNOS.len()]);
+                }
+            }
         }
         if !ring.overflow.is_empty() {
             self.feat("overflow");
@@ -1073,6 +1090,8 @@ impl<'a> Exec<'a> {
             a10::verif::install_point(Some(c05_head_store_adversary));
         }
         let events_at_poll = sim::events_len();
+        sim::fail_next_enter(0);
+        let injected = inline.iter().filter_map(|a| if let KAct::FailEnter { errno } = a { Some(ENTER_ERRNOS[*errno as usize % ENTER_ERRNOS.len()]) } else { None }).last();
         let deliverable = cq_tail_before != cq_head_before || !inline.is_empty();
         let timeout = if block && deliverable { None } else { Some(Duration::ZERO) };
         if timeout.is_none() {
@@ -1090,6 +1109,16 @@ impl<'a> Exec<'a> {
                 self.violation(&format!("{p}:{SIG_PANIC}:ring-poll"), format!("Ring::poll panicked at {loc}: {msg}"));
                 return;
             }
+            Ok(Err(e)) if injected.is_some() && e.raw_os_error() == injected => {
+                // The kernel refused to wait: nothing may have been consumed
+                // twice or lost because of it; whatever was posted during the
+                // call is handed out by a later Ring::poll (the model only
+                // goes by the completion queue head).
+                sim::fail_next_enter(0);
+                self.feat("enter-failed");
+                self.update_consumed();
+                return;
+            }
             Ok(Err(e)) => {
                 let p = self.primary();
                 self.violation(&format!("{p}:ring-poll-error"), format!("Ring::poll returned an error: {e}"));
@@ -1097,6 +1126,7 @@ impl<'a> Exec<'a> {
             }
             Ok(Ok(())) => {}
         }
+        sim::fail_next_enter(0);
         let (sq_head, sq_tail, cq_head, cq_tail, entries) = self.ring_words();
         // C04: a Ring::poll that entered the kernel handed it the whole queue
         // (the entries are consumed by the application's own system call;
